@@ -161,6 +161,58 @@ def run_all(invs, afs, workdir, bins, seed, per_af):
     return segs, k
 
 
+def big_instances(seed, count):
+    """instances with 1100-2600 arguments: mostly isolated arguments, plus chains and even cycles (extensions of > 1000 arguments)"""
+    rng = random.Random(seed)
+    res = []
+    for _ in range(count):
+        n = rng.randint(1100, 2600)
+        att = []
+        k = n - rng.randint(20, 60)
+        a = k
+        while a + 1 < n:          # the tail: chains and 2-cycles
+            if rng.random() < 0.5:
+                att += [(a, a + 1), (a + 1, a)]
+            else:
+                att += [(a, a + 1)]
+            a += rng.choice([1, 2])
+        res.append({"n": n, "att": [[x, y] for x, y in sorted(set(att))], "tag": "big"})
+    return res
+
+
+def run_big(afs, workdir, bins, seed):
+    rng = random.Random(seed)
+    d = os.path.join(workdir, "clifiles")
+    os.makedirs(d, exist_ok=True)
+    segs, jobs, owners = [], [], []
+    for idx, a in enumerate(afs):
+        files = write_files(a, d, 100000 + idx)
+        segs.append([{"ev": "af", "idx": idx, "n": a["n"], "args": list(range(1, a["n"] + 1)), "ids": [], "att": a["att"], "present": "file",
+                      "tag": "big", "sems": [], "big": True}])
+        for b, fmt in (("crustabri", "iccma"), ("crustabri", "apx"), ("iccma23", "iccma")):
+            for kind, sem in (("SE", "GR"), ("SE", "ST"), ("SE", "PR"), ("DC", "CO"), ("DS", "ST"), ("SE", "CO")):
+                inv = {"bin": b, "file": "good", "fmt": fmt, "pclass": "valid", "kind": kind, "argc": "absent" if kind == "SE" else "valid",
+                       "enc": "unset", "cert": True, "log": "off"}
+                argv = [bins[b]] + (["solve"] if b == "crustabri" else []) + ["-f", files[(fmt, "good")]]
+                if b == "crustabri":
+                    argv += ["-r", "apx"] if fmt == "apx" else []
+                argv += ["-p", "%s-%s" % (kind, sem)]
+                args = []
+                if kind != "SE":
+                    x = rng.randint(a["n"] - 15, a["n"])
+                    args = [x]
+                    argv += ["-a", ("a%d" % x) if fmt == "apx" else str(x)]
+                if b == "crustabri":
+                    argv += ["-c", "--logging-level", "off"]
+                jobs.append((inv, argv, sem, args))
+                owners.append(idx)
+    with cf.ThreadPoolExecutor(max_workers=os.cpu_count() or 4) as ex:
+        for idx, ev in zip(owners, ex.map(run_one, jobs)):
+            ev["big"] = True
+            segs[idx].append(ev)
+    return segs
+
+
 def problems_events(bins):
     evs = []
     for b, argv in (("crustabri", [bins["crustabri"], "problems", "--logging-level", "off"]), ("iccma23", [bins["iccma23"], "--problems"])):
